@@ -1,3 +1,5 @@
+import CuriesVerif.Lemmas.Header
+import CuriesVerif.Lemmas.MapM
 import CuriesVerif.Model.Mapping
 import CuriesVerif.Properties.C03
 import CuriesVerif.Lemmas.Sort
@@ -189,4 +191,112 @@ example :
       handleHeader syn sup [88] (some [([104], 1000)]),
       handleHeader syn sup [88] none])
     = [[74], [67], [88], [88]] := by
+  decide
+
+
+open Header Mapping
+
+/-- `_handle_part` on the `;`-separated pieces of one header element -/
+def partOfPieces (space : Nat → Bool) (pieces : List Str) : Except Err Part :=
+  match pieces.map (strip space) with
+  | [] => .error .other
+  | key :: params =>
+    match params.find? (fun prm => isQ space (partitionEq prm).1) with
+    | none => .ok (key, 1000)
+    | some prm =>
+      match parseQ space (partitionEq prm).2 with
+      | some q => .ok (key, q)
+      | none => .error .valueError
+
+theorem handlePart_eq (space : Nat → Bool) (part : Str) : handlePart space part = partOfPieces space (splitOn 59 part) := rfl
+
+theorem mapM_congr_mem' {α β ε : Type} (f g : α → Except ε β) (l : List α) (h : ∀ a ∈ l, f a = g a) :
+    l.mapM f = l.mapM g := by
+  induction l with
+  | nil => rfl
+  | cons a as ih =>
+    rw [List.mapM_cons, List.mapM_cons, h a (by simp), ih (fun x hx => h x (by simp [hx]))]
+
+/-- **C18 (the header as text).** A header written as elements separated by `,`, each a media type
+followed by `;`-separated parameters — none of the pieces containing `,` or `;`, anything else
+allowed, in particular optional whitespace around every piece — is parsed into exactly the parts its
+pieces denote, element by element; so `handle_header` on the text is the negotiation of
+`C18_header_max` / `C18_header_supported` over those parts. -/
+theorem C18_header_text (space : Nat → Bool) (syn : List (Str × Str)) (sup : List Str) (dflt : Str)
+    (raw : List (List Str)) (hne : raw ≠ []) (hpieces : ∀ pieces ∈ raw, pieces ≠ [] ∧ ∀ p ∈ pieces, 44 ∉ p ∧ 59 ∉ p)
+    (hnonempty : joinWith 44 (raw.map (joinWith 59)) ≠ []) :
+    handleHeaderText space syn sup dflt (some (joinWith 44 (raw.map (joinWith 59)))) =
+      match raw.mapM (partOfPieces space) with
+      | .ok parts => .ok (handleHeader syn sup dflt (some parts))
+      | .error e => .error e := by
+  have hcomma : ∀ p ∈ raw.map (joinWith 59), 44 ∉ p := by
+    intro p hp
+    obtain ⟨pieces, hpc, rfl⟩ := List.mem_map.mp hp
+    have := (hpieces pieces hpc).2
+    -- a join of comma-free pieces with ';' is comma-free
+    have key : ∀ (l : List Str), (∀ x ∈ l, 44 ∉ x) → 44 ∉ joinWith 59 l := by
+      intro l
+      induction l with
+      | nil => intro _; simp [joinWith]
+      | cons a as ih =>
+        intro hl
+        cases as with
+        | nil => simpa [joinWith] using hl a (by simp)
+        | cons b bs =>
+          simp only [joinWith, List.mem_append, List.mem_cons, not_or]
+          exact ⟨hl a (by simp), by decide, ih (fun x hx => hl x (by simp [hx]))⟩
+    exact key pieces (fun x hx => (this x hx).1)
+  have hparts : headerParts space (joinWith 44 (raw.map (joinWith 59))) = raw.mapM (partOfPieces space) := by
+    unfold headerParts
+    rw [splitOn_joinWith 44 _ (by simpa using hne) hcomma, List.mapM_map]
+    apply mapM_congr_mem'
+    intro pieces hpc
+    simp only [Function.comp]
+    rw [handlePart_eq, splitOn_joinWith 59 pieces (hpieces pieces hpc).1 (fun p hp => ((hpieces pieces hpc).2 p hp).2)]
+  unfold handleHeaderText
+  cases hh : joinWith 44 (raw.map (joinWith 59)) with
+  | nil => exact absurd hh hnonempty
+  | cons x xs =>
+    simp only
+    rw [← hh, hparts]
+    cases raw.mapM (partOfPieces space) <;> rfl
+
+/-- what a well-formed element denotes: the media type with the whitespace around it removed, and the
+weight of its first `q` parameter (1 when there is none) -/
+theorem partOfPieces_wellformed (space : Nat → Bool) (l t r : Str) (pre : List Str) (qpiece : Str) (post : List Str) (q : Nat)
+    (hl : ∀ x ∈ l, space x = true) (hr : ∀ x ∈ r, space x = true) (ht : Stripped space t)
+    (hpre : ∀ p ∈ pre, isQ space (partitionEq (strip space p)).1 = false)
+    (hq : isQ space (partitionEq (strip space qpiece)).1 = true)
+    (hval : parseQ space (partitionEq (strip space qpiece)).2 = some q) :
+    partOfPieces space ((l ++ t ++ r) :: pre ++ qpiece :: post) = .ok (t, q) ∧
+    partOfPieces space ((l ++ t ++ r) :: pre) = .ok (t, 1000) := by
+  have hfind : ∀ rest : List Str, ((pre ++ rest).map (strip space)).find? (fun prm => isQ space (partitionEq prm).1)
+      = (rest.map (strip space)).find? (fun prm => isQ space (partitionEq prm).1) := by
+    intro rest
+    induction pre with
+    | nil => rfl
+    | cons p ps ih =>
+      simp only [List.cons_append, List.map_cons, List.find?_cons, hpre p (by simp)]
+      exact ih (fun x hx => hpre x (by simp [hx]))
+  constructor
+  · show partOfPieces space ((l ++ t ++ r) :: (pre ++ qpiece :: post)) = _
+    unfold partOfPieces
+    simp only [List.map_cons, strip_ows space l t r hl hr ht]
+    rw [hfind]
+    simp only [List.map_cons, List.find?_cons, hq, hval]
+  · unfold partOfPieces
+    simp only [List.map_cons, strip_ows space l t r hl hr ht]
+    have := hfind []
+    simp only [List.append_nil, List.map_nil, List.find?_nil] at this
+    rw [this]
+
+def strOf (x : String) : Str := x.toList.map Char.toNat
+
+/-- Non-vacuity: `text/csv;charset=utf-8;q=0.2 , application/json; Q=0.5` with the real tables: JSON wins. -/
+example :
+    (handleHeaderText (fun c => c == 32 || c == 9)
+      [(strOf "application/json", strOf "application/sparql-results+json"), (strOf "text/csv", strOf "application/sparql-results+csv")]
+      [strOf "application/sparql-results+json", strOf "application/sparql-results+xml", strOf "application/sparql-results+csv"]
+      (strOf "application/sparql-results+xml") (some (strOf "text/csv;charset=utf-8;q=0.2 , application/json; Q=0.5"))).toOption
+      = some (strOf "application/sparql-results+json") := by
   decide
